@@ -102,7 +102,20 @@ func C14Configs(p *spec.Program) []spec.Config {
 			d.Types = append(d.Types, []string{"types.", "alpha.", "example.com/beta/v1.", "p."}[i%4]+t)
 		}
 	}
-	return []spec.Config{a, b, c, d}
+	// the list options written in flow style on one (very long) line: 400 entries that match nothing
+	// around the real ones
+	e := p.Config.Clone()
+	e.FlowLists = true
+	pad := func(l []string, tag string) []string {
+		out := append([]string{}, l...)
+		for i := 0; i < 400; i++ {
+			out = append(out, fmt.Sprintf("Padding%s%03d.Field", tag, i))
+		}
+		return out
+	}
+	e.ExcludeFields, e.ComputedFields = pad(e.ExcludeFields, "X"), pad(e.ComputedFields, "C")
+	e.RequiredFields, e.SensitiveFields = pad(e.RequiredFields, "R"), pad(e.SensitiveFields, "S")
+	return []spec.Config{a, b, c, d, e}
 }
 
 // C14ConfigsFor derives, for any program, two logical configurations with >= 2 entries in every map-
